@@ -321,7 +321,12 @@ func (ma *ModuleAnalyzer) collectModuleImports(ast *parser.Node, filePath string
 			// Handle "from module import name" statements
 			isTypeChecking := ma.isInTypeCheckingBlock(node)
 			module := node.Module
-			level := ma.calculateRelativeLevel(node.Module)
+			// The parser keeps the dots of a relative import in Level (Module has
+			// no leading dots); fall back to counting dots for hand-built nodes
+			level := node.Level
+			if level == 0 {
+				level = ma.calculateRelativeLevel(node.Module)
+			}
 
 			// Get imported names - use map to deduplicate since names may appear
 			// in both node.Names and child Alias nodes depending on parser version
@@ -381,9 +386,10 @@ func (ma *ModuleAnalyzer) resolveRelativeImport(imp *ImportInfo, fromFile string
 	// Get the directory of the current file
 	currentDir := filepath.Dir(fromFile)
 
-	// Navigate up the directory tree based on the level
+	// Navigate up the directory tree based on the level: one dot is the
+	// package of the importing file itself, each further dot one package up
 	targetDir := currentDir
-	for i := 0; i < imp.Level; i++ {
+	for i := 1; i < imp.Level; i++ {
 		targetDir = filepath.Dir(targetDir)
 	}
 
